@@ -4,6 +4,7 @@ package c11
 
 import (
 	"fmt"
+	"math"
 	"testing"
 
 	"github.com/openacid/low/bitmap"
@@ -74,11 +75,13 @@ func checkOne(s string, from int32, w int) *vk.Failure {
 	k, v := extract(s, from, w)
 	var gk int32
 	var gv uint64
-	if f := vk.Try(fmt.Sprintf("FromStr32(%x, %d, %d)", s, from, int64(from)+int64(w)), func() { gk, gv = bitmap.FromStr32(s, from, from+int32(w)) }); f != nil {
-		return f
-	}
-	if int(gk) != k || gv != v {
-		return vk.Failf("fromstr32", "FromStr32(s=%x, from=%d, to=%d) = (%d, %#x), want (%d, %#x)", s, from, from+int32(w), gk, gv, k, v)
+	if int64(from)+int64(w) <= math.MaxInt32 { // FromStr32 takes the end bit: only callable when it fits an int32
+		if f := vk.Try(fmt.Sprintf("FromStr32(%x, %d, %d)", s, from, int64(from)+int64(w)), func() { gk, gv = bitmap.FromStr32(s, from, from+int32(w)) }); f != nil {
+			return f
+		}
+		if int(gk) != k || gv != v {
+			return vk.Failf("fromstr32", "FromStr32(s=%x, from=%d, to=%d) = (%d, %#x), want (%d, %#x)", s, from, from+int32(w), gk, gv, k, v)
+		}
 	}
 	wp, wtxt := wantPath(s, from, w)
 	var gp uint64
@@ -242,6 +245,9 @@ func genOne(t *rapid.T) Case {
 	if from+int64(w) > 1<<31-1 {
 		from = 1<<31 - 1 - int64(w)
 	}
+	if gen.Chance(t, 1, 25, "top") { // PathOf takes (start, height): any start up to MaxInt32 is expressible
+		from, cl = int64(math.MaxInt32)-int64(gen.Uniform(t, 70, "below-max")), "start-at-top-of-int32"
+	}
 	return Case{Op: "fromstr32", S: s, From: int32(from), W: w, Class: cl}
 }
 
@@ -337,6 +343,15 @@ func TestGrid(t *testing.T) {
 				}
 			}
 		}
+	}
+	// start bits at the top of int32 (start + height no longer fits an int32)
+	for d := int32(0); d <= 70; d++ {
+		for _, w := range []int{0, 1, 8, 31, 32} {
+			for _, s := range []string{"", "a", "\xff\xff\xff\xff\xff"} {
+				checker.Run(t, Case{Op: "fromstr32", S: vk.Hex(s), From: math.MaxInt32 - d, W: w, Class: "grid-start-at-top-of-int32"})
+			}
+		}
+		checker.Run(t, Case{Op: "pathsof", Keys: []vk.Hex{vk.Hex("ab"), vk.Hex("ab"), vk.Hex("b")}, From: math.MaxInt32 - d, W: 32, Dedup: d%2 == 0, Class: "grid-start-at-top-of-int32"})
 	}
 	// very long key lists (size thresholds): runs of equal paths that straddle every multiple of 1024
 	for _, n := range []int{4095, 4096, 4097, 8192, 12288, 20011} {
